@@ -392,8 +392,9 @@ def medium_cases(rng, widths):
 # thresholds of the code: Karatsuba recurses for n == 18 and n >= 20 (operands are padded to the wider one);
 # at n = 35 (halves 17 / 18), 36 (18 / 18; sum 19), 37 (sum 20) the recursion is two deep;
 # add_square splits for n >= 48 except 49 and 53
-KARA_QUICK = [(17, 17), (18, 18), (19, 19), (20, 20), (21, 21), (20, 3), (35, 35), (37, 37), (41, 41)]
-KARA_THOROUGH = [(n, n) for n in (22, 23, 24, 34, 36, 38, 39, 40, 42, 47, 64)] + [(18, 1), (1, 20), (25, 18),
+KARA_QUICK = [(17, 17), (18, 18), (19, 19), (20, 20), (21, 21), (20, 3), (35, 35), (37, 37), (41, 41),
+              (18, 1), (1, 20), (1, 18), (21, 1)]   # a one-bit operand at a width that recurses: n + m - 1 result bits
+KARA_THOROUGH = [(n, n) for n in (22, 23, 24, 34, 36, 38, 39, 40, 42, 47, 64)] + [(22, 1), (1, 35), (25, 18),
                                                                                (40, 21), (37, 36)]
 SQ_QUICK = [47, 48, 49, 50, 51, 53, 54, 55]      # 51, 55: ODD widths on the split path (the halves differ in length)
 SQ_THOROUGH = [51, 52, 55, 60, 96]
